@@ -132,6 +132,8 @@ type outTask struct {
 	slow   bool
 	reopen int   // index of the command after which a command re-opens /dev/stdout and /dev/stderr by path (-1: none)
 	merge  []int // per command: 0 separate streams, 1 `2>&1`, 2 `1>&2` (one stream carries both, in the order written)
+	late   bool  // last but one line: a command that exits at once while a child that inherited the streams writes 0.6 s later
+	sig    int   // last line: a command that is killed by this signal (0: none) - a failure like a non-zero exit status
 }
 
 // RunOutputCase runs real tasks that write known byte streams and compares what the log store and the log API return
@@ -206,6 +208,15 @@ func RunOutputCase(seed int64, o OutputOpts) *HistResult {
 					// a child that opens its standard streams by path must append to the captured output like any other writer
 					script = append(script, `sh -c 'printf "[PATH-%s]" {{.jobtag}} > /dev/stdout; printf "[PATHERR-%s]" {{.jobtag}} >> /dev/stderr'`)
 				}
+			}
+			if r.Intn(9) == 0 {
+				// output written by a descendant after the command itself has exited belongs to the task's output as well
+				ot.late = true
+				script = append(script, `sh -c '(sleep 0.6; printf "[LATE-%s]" {{.jobtag}}; printf "[LATEERR-%s]" {{.jobtag}} >&2) & printf "[EARLY-%s]" {{.jobtag}}'`)
+			}
+			if r.Intn(9) == 0 {
+				ot.sig = []int{9, 15, 11}[r.Intn(3)]
+				script = append(script, fmt.Sprintf(`sh -c 'kill -%d $$'`, ot.sig))
 			}
 			td := definition.TaskDef{Script: script, AllowFailure: ot.allow}
 			if t > 0 && r.Intn(4) == 0 {
@@ -291,6 +302,7 @@ func RunOutputCase(seed int64, o OutputOpts) *HistResult {
 			}
 			ran := ts.Start != nil
 			var expOut, expErr []byte
+			reachedEnd := true
 			for ci, pl := range ot.plans {
 				pl.Tag = j.tag
 				so, se, exit := pl.Expected()
@@ -306,12 +318,18 @@ func RunOutputCase(seed int64, o OutputOpts) *HistResult {
 				expOut = append(expOut, so...)
 				expErr = append(expErr, se...)
 				if exit != 0 && !ot.allow {
+					reachedEnd = false
 					break
 				}
 				if ci == 0 && ot.reopen == 0 {
 					expOut = append(expOut, "[PATH-"+j.tag+"]"...)
 					expErr = append(expErr, "[PATHERR-"+j.tag+"]"...)
 				}
+			}
+			if ot.late && reachedEnd {
+				expOut = append(expOut, "[EARLY-"+j.tag+"][LATE-"+j.tag+"]"...)
+				expErr = append(expErr, "[LATEERR-"+j.tag+"]"...)
+				res.sit("C19", "descendant writes after its command exited")
 			}
 			if !ran {
 				// never started (dependency failed / job canceled): nothing may be stored
@@ -386,6 +404,10 @@ func RunOutputCase(seed int64, o OutputOpts) *HistResult {
 							st = "failed"
 						}
 					}
+					if st == "ok" && ot.sig != 0 {
+						st = "failed" // killed by a signal without any cancel: a failure like any other
+						res.sit("C08", fmt.Sprintf("real runner: command killed by signal %d", ot.sig))
+					}
 				}
 				state[ot.name] = st
 				ts := snap.Task(ot.name)
@@ -398,7 +420,7 @@ func RunOutputCase(seed int64, o OutputOpts) *HistResult {
 				case "failed":
 					anyFailed = true
 					if ts.Status != "error" || !ts.Errored {
-						res.Findings = append(res.Findings, Finding{Props: []string{"C08", "C02"}, Sig: "C08:failed-task-not-reported-errored", Detail: fmt.Sprintf("real task runner: a command of task %q exited with status 3 (no allow_failure) but the task is reported status=%q errored=%v exit=%d", ot.name, ts.Status, ts.Errored, ts.ExitCode), Step: -1})
+						res.Findings = append(res.Findings, Finding{Props: []string{"C08", "C02"}, Sig: "C08:failed-task-not-reported-errored", Detail: fmt.Sprintf("real task runner: a command of task %q failed (exit status 3 or killed by signal %d; no allow_failure) but the task is reported status=%q errored=%v exit=%d", ot.name, ot.sig, ts.Status, ts.Errored, ts.ExitCode), Step: -1})
 					}
 				case "blocked":
 					if ts.Start != nil || ts.Status == "done" || ts.Status == "running" {
